@@ -37,7 +37,14 @@ func parseCmd(line string) (cmd string, arg string, err error) {
 		return "", "", fmt.Errorf("mangled command: %q", line)
 	}
 
-	return strings.ToUpper(line[0:4]), strings.TrimSpace(line[5:]), nil
+	return strings.ToUpper(line[0:4]), trimASCIISpace(line[5:]), nil
+}
+
+// trimASCIISpace removes leading and trailing ASCII white space. Unicode white
+// space is legal in SMTPUTF8 parameter values (RFC 6533 utf-8-addr-unitext) and
+// must not be trimmed from the end of a command line.
+func trimASCIISpace(s string) string {
+	return strings.Trim(s, " \t\n\v\f\r")
 }
 
 // Takes the arguments proceeding a command and files them
